@@ -166,15 +166,48 @@ func MapLit(keys []string, vals ...Ty) *Rule {
 
 func (r *Rule) String() string { return fmt.Sprintf("%s:%s", r.Op, r.Arg) }
 
-// Vars returns the names of the environment members mentioned by e (in first-use order).
+// implicit dependencies of harness functions on members
+var implicitDeps = map[string][]string{"GetInt": {"I"}}
+
+// Vars returns the names of the environment members whose value the expression
+// depends on (in first-use order).
 func Vars(e *Expr) []string {
 	var out []string
 	seen := map[string]bool{}
+	add := func(n string) {
+		if !seen[n] {
+			seen[n] = true
+			out = append(out, n)
+		}
+	}
 	e.Walk(func(x *Expr) {
-		if x.R.Op == "var" && !seen[x.R.Arg] {
+		if x.R.Op == "var" {
+			add(x.R.Arg)
+		}
+		if x.R.Op == "call" {
+			for _, d := range implicitDeps[x.R.Arg] {
+				add(d)
+			}
+		}
+	})
+	return out
+}
+
+// Names returns every top-level name the expression mentions (members and functions).
+func Names(e *Expr) []string {
+	var out []string
+	seen := map[string]bool{}
+	e.Walk(func(x *Expr) {
+		if (x.R.Op == "var" || x.R.Op == "call") && !seen[x.R.Arg] {
 			seen[x.R.Arg] = true
 			out = append(out, x.R.Arg)
 		}
 	})
+	for _, v := range Vars(e) {
+		if !seen[v] {
+			seen[v] = true
+			out = append(out, v)
+		}
+	}
 	return out
 }
